@@ -50,6 +50,8 @@ class BuckGophermapHandler(BaseHandler):
             and stat.S_ISREG(self.statresult[stat.ST_MODE])
         ):
             selector = self.getselector()
+            # Relative links are relative to the directory the file is in.
+            self.selectorbase = self.selector.rsplit("/", 1)[0]
         else:
             selector = self.selectorbase + "/gophermap"
 
